@@ -799,8 +799,12 @@ def execute_case(case, collect_samples=False):
     return rep
 
 
-def fresh_world(case):
-    return World(case, install())
+def fresh_world(case, upto=0):
+    """Fresh objects in the state the caller's objects are in before call
+    number `upto` (the caller's own tokenizer reconfigurations replayed)."""
+    w = World(case, install())
+    w.apply_retunes(case['history'], upto)
+    return w
 
 
 def resolve_fault(case, idx, op, results_main, cpus):
@@ -814,7 +818,7 @@ def resolve_fault(case, idx, op, results_main, cpus):
         return fault
     if fault.get('at') is not None or fault.get('after') is not None:
         return fault
-    w2 = fresh_world(case)
+    w2 = fresh_world(case, idx)
     saved = (ENV.events, ENV.seq)
     ENV.events, ENV.seq = [], 0
     try:
@@ -846,6 +850,10 @@ def resolve_fault(case, idx, op, results_main, cpus):
 
 def run_history_op(case, world, idx, op, results, rep, cpus):
     kind = op['op']
+    if kind == 'retune':
+        world.retune(op['tok'], op['set'])
+        rep['stats']['retunes'] += 1
+        return []
     if kind == 'reject':
         from sim.reject import run_reject
         return run_reject(case, world, idx, op, results, rep, cpus)
@@ -1039,6 +1047,43 @@ def _probe_join(rep, op, out, po):
         rep['tags'].add('C11')
     n_may = sum(1 for v in po.verdict.values() if v == model.MAY)
     st['straddle_pairs'] += n_may
+    # reach probes (DESIGN 4: C01, C09)
+    if op['measure'] in ('JACCARD', 'COSINE', 'DICE'):
+        t = op['threshold']
+        for k in po.must():
+            if po.kind[k] != 'normal':
+                continue
+            a, b, o = po.sizes[k]
+            if any(_eq(sc, round(t, 4)) for sc in (po.scores[k] or [])):
+                st['probe_must_pair_exactly_on_threshold'] += 1
+            for n in (a, b):
+                for prod in (t * n, t * t * n, t / (2 - t) * n):
+                    if prod != round(prod) and abs(prod - round(prod)) < 1e-9:
+                        st['probe_threshold_size_product_off_integer'] += 1
+                        break
+            if max(a, b) >= 18:
+                st['probe_must_pair_with_18plus_tokens'] += 1
+    ej = effective_jobs(out)
+    if ej >= 2 and po.r_empty_pos and po.r_present:
+        n = po.r_present
+        size = 1.0 / ej * n
+        bounds = [(int(round(i * size)), int(round((i + 1) * size)))
+                  for i in range(ej)]
+        empties = set(po.r_empty_pos)
+        for ci, (a, b) in enumerate(bounds):
+            rows = range(a, b)
+            if not len(rows):
+                st['probe_empty_chunk'] += 1
+                continue
+            ne = sum(1 for i in rows if i in empties)
+            if ne:
+                where = 'first' if ci == 0 else ('last' if ci == ej - 1
+                                                 else 'middle')
+                st['probe_empty_right_row_in_%s_chunk' % where] += 1
+                if ne == len(rows):
+                    st['probe_chunk_of_only_empty_rows'] += 1
+        if po.l_empty >= 2:
+            st['probe_left_empties_ge2_with_fanout'] += 1
 
 
 def _probe_filter(rep, op, out, po):
@@ -1098,7 +1143,7 @@ def _compare(world, op, base_res, other_res, exact, po, what, prop, comp):
 
 def run_twin(case, world, idx, op, out, results, rep, cpus):
     """The same call in isolation: fresh objects, n_jobs=1, no plan."""
-    w2 = fresh_world(case)
+    w2 = fresh_world(case, idx)
     op2 = dict(op)
     op2['n_jobs'] = 1
     op2.pop('fault', None)
@@ -1209,12 +1254,12 @@ def run_variant(case, world, idx, op, out, var, results, rep, cpus):
     same_objects = False
     if what == 'n_jobs':
         op2['n_jobs'] = var['n_jobs']
-        w2 = fresh_world(case)
+        w2 = fresh_world(case, idx)
     elif what == 'repeat':
         w2 = world
         same_objects = True
     else:
-        w2 = fresh_world(variant_case(case, op, var))
+        w2 = fresh_world(variant_case(case, op, var), idx)
     if isinstance(op.get('candset'), str) and \
             op['candset'].startswith('result_of:'):
         res2 = dict((j, r.copy(deep=True)) for j, r in results.items())
